@@ -47,7 +47,7 @@ func RaceBody(reps int) {
 				}(i, ops)
 			}
 			close(start)
-			wg.Wait()
+			engine.WaitOrBlocked(&wg, "C02 race pass", 0)
 			runs++
 		}
 	}
